@@ -10,7 +10,7 @@
 (*   esc  what the emitter does to the text first: "none" | "rust_str"      *)
 (*        (escaped as a Rust string literal) | "lines" (one comment line    *)
 (*        per line of text) | "one_line" (line breaks removed) | "number"   *)
-(*        (only a numeral is let through) | "case" (case-converted to an    *)
+(*        (only a numeral is let through, printed from its value) | "case" (case-converted to an    *)
 (*        identifier, keywords renamed)                                     *)
 (* Safe(c, s) says whether a payload of class c stays DATA at site s, i.e.  *)
 (* is still inside the literal / comment / identifier it was meant for.     *)
@@ -23,6 +23,9 @@ EXTENDS Naturals, FiniteSets, TLC
 CONSTANT Dev
 
 Classes == {"plain", "quote", "backslash", "braces", "lf", "cr", "comment_end", "comment_start", "inject", "nonascii"}
+\* lexical forms of an XSD integer (they only make sense where a numeral is expected: facet values): explicit plus sign,
+\* leading zeros, surrounding white space, minus sign.  All of them ARE numerals; not all of them are Rust literals.
+NumClasses == {"num_plus", "num_zeros", "num_space", "num_neg"}
 
 SitesRepaired ==
   { [id |-> "field_rename", src |-> "name", ctx |-> "str", esc |-> "rust_str"],
@@ -52,10 +55,13 @@ Safe(c, s) ==
     [] s.ctx = "doc_comment" -> (s.esc = "lines" \/ c # "cr")          \* a bare CR is not allowed in a doc comment
     [] s.ctx = "line_comment" -> (s.esc = "one_line" \/ c \notin {"lf", "cr"})
     [] s.ctx = "block_comment" -> c \notin {"comment_end", "comment_start"}
-    [] s.ctx = "code" -> (s.esc = "number")                            \* anything that is not a numeral must be kept out
+    \* anything that is not a numeral must be kept out, and a numeral must arrive as a Rust literal of the same value:
+    \* "number" = parsed and printed again; "number_checked" = parsed for validation, the schema's text copied
+    [] s.ctx = "code" -> (s.esc = "number" \/ (s.esc = "number_checked" /\ c \in NumClasses \ {"num_plus"}))
     [] s.ctx = "ident" -> (s.esc = "case")                             \* case conversion keeps identifier characters only
     [] OTHER -> FALSE
 
 \* C14 at design level
-AllSafe == \A s \in Sites, c \in Classes : Safe(c, s)
+AllSafe == /\ \A s \in Sites, c \in Classes : Safe(c, s)
+           /\ \A s \in {x \in Sites : x.src = "facet"}, c \in NumClasses : Safe(c, s)
 =======================================================================
